@@ -22,7 +22,8 @@ type Oblig struct {
 	Defs    []*T // definitional side constraints of the goal (fresh floors)
 	Shape   string
 	PathNo  int
-	Expect  string // "unsat" (default: goal must follow) or "sat" (cover)
+	Expect  string // "unsat" (default: goal must follow), "sat" (cover) or "notunsat" (seq-mode vacuity guard)
+	Raw     string // seq mode: the complete SMT-LIB script (Goal/Assume are for display only)
 	Notes   []string
 	// carve-out handling
 	Carved   bool   // goal proved only outside a known-finding carve-out
@@ -48,6 +49,9 @@ type obCtx struct {
 func (o *Oblig) ok() bool {
 	if o.Expect == "sat" {
 		return o.Res.Status == "sat"
+	}
+	if o.Expect == "notunsat" {
+		return o.Res.Status != "unsat"
 	}
 	return o.Trivial || o.Res.Status == "unsat"
 }
@@ -140,6 +144,14 @@ func discharge(obs []*Oblig, thorough bool, timeout time.Duration, workers int) 
 		go func() {
 			defer wg.Done()
 			for ob := range ch {
+				if ob.Raw != "" {
+					ob.Res = solve(ob.Raw, thorough && ob.Expect != "notunsat", timeout)
+					if d := os.Getenv("GOVC_DUMP"); d != "" && !ob.ok() {
+						os.MkdirAll(d, 0o755)
+						os.WriteFile(fmt.Sprintf("%s/%s-%d.smt2", d, sanitize(ob.Name), ob.PathNo), []byte(ob.Raw+"; "+ob.Res.Status+"\n"), 0o644)
+					}
+					continue
+				}
 				if ob.Expect != "sat" && ob.Goal.isTrue() {
 					ob.Trivial = true
 					ob.Res = SolveResult{Status: "unsat", Solver: "simplifier"}
@@ -164,7 +176,7 @@ func discharge(obs []*Oblig, thorough bool, timeout time.Duration, workers int) 
 	// that is reported.
 	var again []*Oblig
 	for _, ob := range obs {
-		if st := ob.Res.Status; !ob.Trivial && st != "sat" && st != "unsat" {
+		if st := ob.Res.Status; !ob.Trivial && st != "sat" && st != "unsat" && ob.Expect != "notunsat" {
 			again = append(again, ob)
 		}
 	}
@@ -187,7 +199,11 @@ func discharge(obs []*Oblig, thorough bool, timeout time.Duration, workers int) 
 			defer wg2.Done()
 			for ob := range ch2 {
 				first := ob.Res
-				r := solve(script(ob.Assume, ob.Goal, ""), true, long)
+				text := ob.Raw
+				if text == "" {
+					text = script(ob.Assume, ob.Goal, "")
+				}
+				r := solve(text, true, long)
 				r.Seconds += first.Seconds
 				r.Retried = true
 				ob.Res = r
